@@ -186,6 +186,7 @@ sites! {
     CQ_POLL_REGISTERED = 184,
     CQ_POLL_BOTTOM = 185,
     CQ_DROP_CANCELLED = 186,
+    CQ_POLL_COUNTED = 188,
     SCOPE_JOIN_BEFORE = 187,
     // may::io (unix)
     IO_READ_EAGAIN = 200,
